@@ -54,6 +54,36 @@ func c12(r *core.Run) {
 	c12Classifier(r, true)
 	// the summary that reaches the IR is the one that was derived: start before step, operands through the renamer
 	r.Under("C02.NONAME", "C12.RENDER", func() { c02RenamerThreaded(r) })
+	c12Invariant(r)
+}
+
+// c12Invariant: a composite symbolic expression is loop-invariant only if ALL its operands are: in every
+// IsLoopInvariant method that asks its operands, the answer cannot be true once one operand answered false. With
+// "or" a step like a[c]+1 (one varying operand) counts as invariant, and a non-linear variable is summarised as a
+// basic induction variable.
+func c12Invariant(r *core.Run) {
+	p := r.P
+	n := 0
+	for _, fn := range p.FuncsIn("pkg/analysis/loop") {
+		if fn.Name() != "IsLoopInvariant" || fn.Signature.Recv() == nil {
+			continue
+		}
+		var asks []*ssa.Call
+		core.InstrsOf(fn, func(in ssa.Instruction) {
+			if c, ok := in.(*ssa.Call); ok && c.Call.IsInvoke() && c.Call.Method.Name() == "IsLoopInvariant" {
+				asks = append(asks, c)
+			}
+		})
+		if len(asks) < 2 {
+			continue
+		}
+		for _, c := range asks {
+			n++
+			bad := conjWitness(fn, c, true)
+			r.Check(bad == "", "C12.IV", core.FuncName(fn)+"#invariant-only-if-every-operand-is("+core.Canon(c.Call.Value)+")", c.Pos(), "with this operand varying the expression is not reported invariant", "with this operand varying the composite expression can still be reported loop-invariant ("+bad+"): a step or limit with one varying operand passes the invariance tests, so a non-linear variable is summarised as {start,+,step} and given a trip count")
+		}
+	}
+	r.Floor("C12.IV", "operand invariance queries of composite expressions", n, 2)
 }
 
 func c12Classifier(r *core.Run, withTrip bool) {
